@@ -36,26 +36,26 @@ func vMakeScript() (script []string, nick, channel, user string) {
 }
 
 type vSess struct {
-	mu         sync.Mutex
-	conn       *Conn
-	n          int         // number of script lines
-	activeFG   map[int]int // seq -> foreground handlers currently inside
-	entered    map[[2]int]int
-	lastSeq    int
-	recovered  int
-	panicked   int
-	connEnter  int
-	connDone   int
-	registers  int
-	discEnter  int
-	discWhileActive bool
-	track      bool
-	panics     bool
-	never      chan struct{}
-	gate       chan struct{}
-	script     []string
+	mu                  sync.Mutex
+	conn                *Conn
+	n                   int         // number of script lines
+	activeFG            map[int]int // seq -> foreground handlers currently inside
+	entered             map[[2]int]int
+	lastSeq             int
+	recovered           int
+	panicked            int
+	connEnter           int
+	connDone            int
+	registers           int
+	discEnter           int
+	discWhileActive     bool
+	track               bool
+	panics              bool
+	never               chan struct{}
+	gate                chan struct{}
+	script              []string
 	nick, channel, user string
-	tseq, tid, tbeh int // the one handler invocation that misbehaves (yields mid-way / panics / blocks)
+	tseq, tid, tbeh     int // the one handler invocation that misbehaves (yields mid-way / panics / blocks)
 }
 
 func (s *vSess) seqOf(l *Line) int {
